@@ -116,12 +116,14 @@ impl LoadBalancer {
       let notified = notify.notified();
       tokio::pin!(notified);
       notified.as_mut().enable();
+      crate::verif_point!("lb.wait.check");
       if self.deactivated.load(std::sync::atomic::Ordering::Acquire) {
         return Err(ZmqError::InvalidState("Socket closed".into()));
       }
       if !self.state.lock().peers.is_empty() {
         return Ok(());
       }
+      crate::verif_point!("lb.wait.await");
       notified.await;
     }
   }
